@@ -1,5 +1,141 @@
-From Coq Require Import List ZArith Lia.
-From Orso Require Import Gen.C13_Disto Model.C13 Model.C13_Q.
-Theorem C13_placeholder : 1 <= BULK_FACTOR.
-Proof. unfold BULK_FACTOR; lia. Qed.
-Print Assumptions C13_placeholder.
+(* C13 - Streaming histogram conserves mass, order, bounds and mean.
+   Property theorems only (each closed by [exact] of a lemma of Proofs/C13*.v).
+
+   [AA fadd fsub fmul fdiv fofZ ftrunc] is the model's arithmetic with EXACT comparisons
+   on Q and ARBITRARY functions for +, -, *, /, int->number and int(): whatever those
+   compute (binary64 rounding included, since every finite binary64 is a rational and the
+   code compares values exactly), the statements below hold.  [QA] is the exact instance.
+   [Inv] (unfolded by C13_invariant_meaning) = bins strictly increasing, at most [cap] of
+   them, every count >= 1, every centre within [min, max], the gap cache well formed.
+   "exists s', f ... = Some s'" also says that the call completes: no Python exception
+   (list.index miss, min([]), index out of range) is reachable.
+
+   NOT proved (checked by the differential run in exact and in binary64 arithmetic, with the
+   reference algorithm as oracle): "whenever the closest pair is unique the bins equal those
+   of the reference streaming algorithm"; and the mean under binary64 ("up to rounding"). *)
+From Coq Require Import QArith ZArith List Sorted Lia.
+From Orso Require Import Gen.C13_Disto Model.C13 Model.C13_Q Proofs.C13_lists Proofs.C13 Proofs.C13_hist.
+Import ListNotations.
+Open Scope Q_scope.
+
+Theorem C13_invariant_meaning :
+  forall s : @st Q, Inv s ->
+  StronglySorted (fun a b : Q * Z => fst a < fst b) (bins s) /\
+  (length (bins s) <= cap s)%nat /\
+  Forall (fun b : Q * Z => (1 <= snd b)%Z) (bins s) /\
+  (bins s <> [] -> exists mn mx, hmin s = Some mn /\ hmax s = Some mx /\
+                                 Forall (fun b : Q * Z => mn <= fst b <= mx) (bins s)).
+Proof. exact Inv_meaning. Qed.
+Print Assumptions C13_invariant_meaning.
+
+(* one weighted update, any arithmetic: completes, keeps the invariant, adds exactly the
+   weight, keeps the capacity, and the bounds become min(old min, value) / max(old max, value) *)
+Theorem C13_update :
+  forall (fadd fsub fmul fdiv : Q -> Q -> Q) (fofZ : Z -> Q) (ftrunc : Q -> Z) (s : @st Q) (v : Q) (c : Z),
+  Inv s -> (1 <= c)%Z ->
+  exists s', update (AA fadd fsub fmul fdiv fofZ ftrunc) s v c = Some s' /\
+             upd_facts fadd fsub fmul fdiv fofZ ftrunc s s' v c.
+Proof. exact update_any. Qed.
+Print Assumptions C13_update.
+
+(* any history of weighted updates on a fresh histogram, any arithmetic *)
+Theorem C13_update_history :
+  forall (fadd fsub fmul fdiv : Q -> Q -> Q) (fofZ : Z -> Q) (ftrunc : Q -> Z) (c : nat) (l : list (Q * Z)),
+  (2 <= c)%nat -> pos_counts l ->
+  exists s, feed (AA fadd fsub fmul fdiv fofZ ftrunc) (empty c) l = Some s /\ Inv s /\
+    mass (bins s) = mass l /\ cap s = c /\
+    (l <> [] -> exists mn mx,
+        hmin s = Some mn /\ hmax s = Some mx /\
+        (forall b, In b l -> mn <= fst b <= mx) /\
+        (exists b, In b l /\ mn = fst b) /\ (exists b, In b l /\ mx = fst b) /\
+        within mn mx (bins s)).
+Proof. exact history_any. Qed.
+Print Assumptions C13_update_history.
+
+(* merge(h1, h2): mass / order / capacity, bounds extended by h2's centres only (as documented) *)
+Theorem C13_merge :
+  forall (fadd fsub fmul fdiv : Q -> Q -> Q) (fofZ : Z -> Q) (ftrunc : Q -> Z) (s1 s2 : @st Q),
+  Inv s1 -> Inv s2 ->
+  exists s', merge (AA fadd fsub fmul fdiv fofZ ftrunc) s1 s2 = Some s' /\ Inv s' /\
+    mass (bins s') = (mass (bins s1) + mass (bins s2))%Z /\ cap s' = cap s1 /\
+    hmin s' = ext_min fadd fsub fmul fdiv fofZ ftrunc (hmin s1) (bins s2) /\
+    hmax s' = ext_max fadd fsub fmul fdiv fofZ ftrunc (hmax s1) (bins s2).
+Proof. exact merge_any. Qed.
+Print Assumptions C13_merge.
+
+(* h1 + h2: additionally the bounds are the extremes of both operands' bounds *)
+Theorem C13_add :
+  forall (fadd fsub fmul fdiv : Q -> Q -> Q) (fofZ : Z -> Q) (ftrunc : Q -> Z) (s1 s2 : @st Q),
+  Inv s1 -> Inv s2 -> bins s2 <> [] ->
+  exists s' m x m2 x2,
+    hadd (AA fadd fsub fmul fdiv fofZ ftrunc) s1 s2 = Some s' /\ Inv s' /\
+    mass (bins s') = (mass (bins s1) + mass (bins s2))%Z /\ cap s' = cap s1 /\
+    ext_min fadd fsub fmul fdiv fofZ ftrunc (hmin s1) (bins s2) = Some m /\
+    ext_max fadd fsub fmul fdiv fofZ ftrunc (hmax s1) (bins s2) = Some x /\
+    hmin s2 = Some m2 /\ hmax s2 = Some x2 /\
+    hmin s' = Some (pmin (AA fadd fsub fmul fdiv fofZ ftrunc) m m2) /\
+    hmax s' = Some (pmax (AA fadd fsub fmul fdiv fofZ ftrunc) x x2).
+Proof. exact hadd_any. Qed.
+Print Assumptions C13_add.
+
+(* bulk load of what numpy.unique / numpy.histogram produced (counts >= 0, not all 0) *)
+Theorem C13_bulkload :
+  forall (fadd fsub fmul fdiv : Q -> Q -> Q) (fofZ : Z -> Q) (ftrunc : Q -> Z)
+         (s : @st Q) (pairs : list (Q * Z)) (dmin dmax : Q),
+  Inv s -> Forall (fun p => (0 <= snd p)%Z) pairs ->
+  (bins s <> [] \/ pairs = [] \/ exists p, In p pairs /\ (0 < snd p)%Z) ->
+  exists s', bulkload (AA fadd fsub fmul fdiv fofZ ftrunc) s pairs dmin dmax = Some s' /\ Inv s' /\
+    mass (bins s') = (mass (bins s) + mass pairs)%Z /\ cap s' = cap s /\
+    (pairs <> [] -> exists m x,
+       ext_min fadd fsub fmul fdiv fofZ ftrunc (hmin s) (filter (fun p => Z.ltb 0 (snd p)) pairs) = Some m /\
+       ext_max fadd fsub fmul fdiv fofZ ftrunc (hmax s) (filter (fun p => Z.ltb 0 (snd p)) pairs) = Some x /\
+       hmin s' = Some (pmin (AA fadd fsub fmul fdiv fofZ ftrunc) m dmin) /\
+       hmax s' = Some (pmax (AA fadd fsub fmul fdiv fofZ ftrunc) x dmax)).
+Proof. exact bulkload_any. Qed.
+Print Assumptions C13_bulkload.
+
+(* dump / load: same bins, same bounds, a valid histogram again (so further updates are
+   covered by C13_update) *)
+Theorem C13_dump_load :
+  forall (fadd fsub fmul fdiv : Q -> Q -> Q) (fofZ : Z -> Q) (ftrunc : Q -> Z) (s : @st Q) (dc : nat),
+  Inv s -> bins s <> [] -> (2 <= dc)%nat ->
+  let s' := load (AA fadd fsub fmul fdiv fofZ ftrunc) dc (bins s) (hmin s) (hmax s) in
+  Inv s' /\ bins s' = bins s /\ hmin s' = hmin s /\ hmax s' = hmax s.
+Proof. exact load_any. Qed.
+Print Assumptions C13_dump_load.
+
+(* the default capacity the source gives a reloaded histogram satisfies that premise *)
+Theorem C13_default_capacity : (2 <= BIN_COUNT)%nat /\ (1 <= BULK_FACTOR)%nat.
+Proof. unfold BIN_COUNT, BULK_FACTOR. split; repeat constructor. Qed.
+Print Assumptions C13_default_capacity.
+
+(* exact arithmetic: the first moment is conserved, so the weighted mean of the bins is
+   exactly the mean of the inserted values *)
+Theorem C13_mean_exact :
+  forall (c : nat) (l : list (Q * Z)),
+  (2 <= c)%nat -> pos_counts l ->
+  exists s, feed QA (empty c) l = Some s /\ Inv s /\
+            moment (bins s) == moment l /\ mass (bins s) = mass l.
+Proof. exact history_mean. Qed.
+Print Assumptions C13_mean_exact.
+
+Theorem C13_mean_exact_step :
+  forall (s : @st Q) (v : Q) (c : Z), Inv s -> (1 <= c)%Z ->
+  exists s', update QA s v c = Some s' /\ Inv s' /\
+             moment (bins s') == moment (bins s) + v * inject_Z c /\
+             mass (bins s') = (mass (bins s) + c)%Z.
+Proof. exact update_moment. Qed.
+Print Assumptions C13_mean_exact_step.
+
+(* Non-vacuity: an 11-step history on a 3-bin histogram (in-place merges, trims, cached
+   gaps) evaluated in exact arithmetic. *)
+Example C13_nonvacuous :
+  let l := map (fun z => (inject_Z z, 1%Z)) [10; 20; 30; 25; 12; 28; 40; 11; 29; 29; 5]%Z in
+  pos_counts l /\
+  option_map (fun s => (map (fun b => (Qred (fst b), snd b)) (bins s), option_map Qred (hmin s), option_map Qred (hmax s)))
+             (feed QA (empty 3) l)
+  = Some ([(19 # 2, 4%Z); (161 # 6, 6%Z); (40 # 1, 1%Z)], Some (5 # 1), Some (40 # 1)).
+Proof.
+  split; [|vm_compute; reflexivity].
+  unfold pos_counts. rewrite Forall_forall. intros b Hb. apply in_map_iff in Hb as (z & <- & _). cbn. lia.
+Qed.
